@@ -6,7 +6,7 @@ from hypothesis import strategies as st
 
 from vlib import gen, ref, obs
 from vlib import expr as E
-from vlib.build import build, apply_value, apply_initial, apply_constraint, make_method, IPOPT_QUIET
+from vlib.build import build, vec_expr, apply_value, apply_initial, apply_constraint, make_method, IPOPT_QUIET
 from vlib.core import Fail, HarnessInconclusive
 from vlib.nlp import NLP, Rows, diff_rows, close, summarize_diff, DMa
 from props import c04, c05
@@ -22,7 +22,7 @@ RULE = ("Model-based history testing: a generated OCP and a generated sequence (
         "a solve reports the iteration limit currently configured. Non-trivial = at least one mutation after the first transcription; distinct = SHA-1 of case JSON.")
 ASSUMPTIONS = ["a fresh build declares in canonical order; constraint order may differ from the evolved OCP (multiset comparison)", "ipopt is deterministic on identical problems"]
 
-MUTATORS = [("set_value", 3), ("set_initial", 3), ("subject_to", 3), ("clear_constraints", 1), ("add_objective", 2), ("method", 3), ("solver", 3), ("set_T", 2), ("set_t0", 2)]
+MUTATORS = [("set_value", 3), ("set_initial", 3), ("subject_to", 3), ("clear_constraints", 1), ("add_objective", 2), ("method", 3), ("solver", 3), ("set_T", 2), ("set_t0", 2), ("set_dyn", 2)]
 QUERIES = [("sample", 3), ("value", 1), ("jacobian", 2), ("solve", 2), ("substage_sample", 1)]
 
 
@@ -44,7 +44,7 @@ def simple_constraint(draw, sp, roots_ok=False):
 
 @st.composite
 def strategy_(draw):
-    sp = draw(gen.base_ocp(horizons=("num", "free"), maxN=3, maxM=2, degrees=(1, 2, 3), allow_alg=False,
+    sp = draw(gen.base_ocp(horizons=("num", "free"), maxN=3, maxM=2, degrees=(1, 2, 3), allow_alg=False, discrete_prob=2,
                            table_kw={"shapes": [(1, 1), (1, 1), (2, 1)], "max_params": 2, "max_vars": 1}))
     sp["objective"] = [draw(c05.objective_term(sp))]
     two_globals = draw(st.integers(0, 2)) == 0
@@ -127,6 +127,10 @@ def strategy_(draw):
             ops.append(["set_T", draw(st.sampled_from([0.5, 1.0, 1.5, 2.0])), draw(st.integers(0, 2)) == 0])
         elif kind == "set_t0":
             ops.append(["set_t0", draw(st.sampled_from([0.0, 0.5, -1.0])), draw(st.integers(0, 2)) == 0])
+        elif kind == "set_dyn":
+            # the right-hand side of one state declared again (set_der / set_next overwrite): same dimensions, another function
+            dyn_ = [d for d in sp["states"] if not d.get("quad")]
+            ops.append(["set_dyn", draw(st.sampled_from(dyn_))["name"], draw(st.sampled_from([0.5, -1.0, 1.5, 2.0]))])
     cands_ = [d for d in sp["params"] if not d["name"].startswith("hp_")]
     ctrl_ = [d for d in syms if d in sp["controls"]]
     if cands_ and ctrl_ and draw(st.integers(0, 2)) == 0:
@@ -143,6 +147,9 @@ def strategy_(draw):
     if two_globals:
         # a query, both parameters assigned in one call, an edit that forces a new transcription: the new values must survive it
         ops += [["sample"], ["set_value_concat", ["cp0", "cp1"], [[draw(gen.small())], [draw(gen.small())]]], ["set_t0", draw(st.sampled_from([0.25, -0.5])), False]]
+    if draw(st.integers(0, 3)) == 0:
+        # a query, the dynamics of one state declared again with nothing else edited, a query: the new right-hand side must be the one transcribed
+        ops += [["sample"], ["set_dyn", [d for d in sp["states"] if not d.get("quad")][0]["name"], draw(st.sampled_from([0.5, -1.0, 2.0]))]]
     if draw(st.integers(0, 3)) == 0:
         # solve, then the same options dictionary edited in place and handed over again, then solve: the new limit must apply
         k1 = draw(st.integers(1, 3))
@@ -341,6 +348,17 @@ def check(case, ctx):
             ocp.set_t0(FreeTime(op[1]) if free_ else op[1])
             model["t0"] = ["free" if free_ else "num", op[1]]
             model["initial"] = [it for it in model["initial"] if it[0] != "t0"]
+        elif kind == "set_dyn":
+            key = "next" if model.get("next") else "der"
+            d = decl[op[1]]
+            for it in model[key]:
+                if it[0] == op[1]:
+                    it[1] = [["*", E.C(op[2]), e] for e in it[1]]
+                    rhs = vec_expr(B, it[1], d["rows"], d["cols"], ocp)
+                    if key == "der":
+                        ocp.set_der(B.syms[op[1]], rhs, **({"scale": model["der_scale"][op[1]]} if op[1] in model.get("der_scale", {}) else {}))
+                    else:
+                        ocp.set_next(B.syms[op[1]], rhs)
         elif kind in ("sample", "value", "jacobian", "substage_sample", "solve"):
             solved = None
             if kind == "sample":
